@@ -662,7 +662,8 @@ const C_SUPER_CHAIN3: usize = 12;
 const C_ERR_NONEMPTY: usize = 13;
 const C_OBS_PANICS: usize = 14;
 const C_PARENT_REPLACED: usize = 15;
-const N_COUNTERS: usize = 16;
+const C_PROVIDER_REPLACED: usize = 16;
+const N_COUNTERS: usize = 17;
 const COUNTER_NAMES: [&str; N_COUNTERS] = [
     "transitions",
     "ok_transitions",
@@ -680,6 +681,7 @@ const COUNTER_NAMES: [&str; N_COUNTERS] = [
     "err_on_nonempty_instance",
     "panics_inside_observation",
     "parent_or_include_target_replaced",
+    "component_provider_replaced_while_called",
 ];
 
 #[derive(Default)]
@@ -868,6 +870,17 @@ fn check_transition(
             });
             if referred {
                 tally.counters[C_PARENT_REPLACED] += 1;
+            }
+            // is the replaced template the provider of component X while another template calls X?
+            let provider = touched.iter().any(|(n, _)| {
+                parent.st.src[*n] != 0
+                    && matches!(cfg.sources[*n][parent.st.src[*n] as usize - 1].kind, Kind::DefX | Kind::DefX2)
+                    && cfg.names.iter().any(|&m| {
+                        m != *n && st.src[m] != 0 && cfg.sources[m][st.src[m] as usize - 1].kind == Kind::CallX
+                    })
+            });
+            if provider {
+                tally.counters[C_PROVIDER_REPLACED] += 1;
             }
         }
         if same_name_twice {
@@ -1473,6 +1486,8 @@ fn main() {
             format!("accepted replacements={} refused replacements (old entry restored)={}", c("replacement_ok"), c("replacement_rolled_back")));
         run.guard("replacement-of-referenced-template", c("parent_or_include_target_replaced") > 0,
             format!("{} accepted replacements of a template another one extends/includes", c("parent_or_include_target_replaced")));
+        run.guard("replacement-of-component-provider", c("component_provider_replaced_while_called") > 0,
+            format!("{} accepted replacements of the template that provides X while another template calls X", c("component_provider_replaced_while_called")));
         run.guard("batch-rollback-second-invalid", c("batch_rolled_back_second_invalid") > 100,
             format!("{} batches whose first element was inserted before the second failed to parse", c("batch_rolled_back_second_invalid")));
         run.guard("batch-same-name-twice", c("batch_same_name_twice_ok") > 0 && c("batch_same_name_twice_err") > 0,
